@@ -95,3 +95,12 @@ package scheduler
 //@   requires ctx != nil && schedulerParameters != nil && quantity.Val(&schedulerParameters.RewardFactorEpochElectionAny) >= 0
 //@   precall state\.MutableState\)\.AddRewards$ :: ordDet(addrs)
 //@   note rewards are paid in sorted address order (the order of account updates and events is part of the replicated state)
+
+// ---- committee election (C14): configured pool-size and group-size limits are checked on the pool that can actually be elected ----
+
+//@ import "github.com/oasisprotocol/oasis-core/go/common/node"
+
+//@ func electCommitteeMembers
+//@   props C14
+//@   precall scheduler\.debugForceElect$ :: nrNodes == len(argAs[[]*node.Node](5)) && nrNodes >= minPoolSize && argIs(6, wantedNodes) && wantedNodes <= nrNodes && minPoolSize >= 0
+//@   note the election for a role proceeds only if the candidate list AFTER per-entity de-duplication (the nodes that can actually be elected together) has at least MinPoolSize entries and at least as many as the committee needs
